@@ -28,82 +28,124 @@ Section Common.
   Definition WF (p : status * world) : Prop :=
     (forall d, In d (cancelled (snd p)) -> In d (fired (snd p))) /\
     (forall d, In d (consumed (snd p)) -> In d (fired (snd p))) /\
-    match fst p with Suspended d _ => ~ In d (fired (snd p)) | Finished _ => True end.
+    match fst p with Suspended d _ => ~ In d (fired (snd p)) | Finished _ => True end /\
+    settling (snd p) = None.
 
   Lemma after_read_world d w :
     fired (after_read coro d w) = fired w /\ cancelled (after_read coro d w) = cancelled w /\
     seen (after_read coro d w) = seen w /\
     (forall x, In x (consumed (after_read coro d w)) -> In x (consumed w) \/ x = d) /\
-    (stale w = true -> stale (after_read coro d w) = true).
+    (stale w = true -> stale (after_read coro d w) = true) /\
+    settling (after_read coro d w) = settling w.
   Proof.
     unfold after_read. destruct coro; cbn.
     - repeat split; auto. intros H. rewrite H. reflexivity.
     - repeat split; auto. intros x [<-|H]; auto.
   Qed.
 
+  Lemma boundary_world w :
+    fired (boundary w) = fired w /\ cancelled (boundary w) = cancelled w /\ seen (boundary w) = seen w /\
+    (forall x, In x (consumed (boundary w)) -> In x (consumed w) \/ settling w = Some x) /\
+    stale (boundary w) = stale w /\ (settling (boundary w) = settling w \/ settling (boundary w) = None).
+  Proof.
+    unfold boundary. destruct (settling w) as [d|] eqn:E; cbn; repeat split; auto.
+    intros x [<-|H]; auto.
+  Qed.
+
   Lemma drive_world g : forall w,
     fired (snd (drive g w)) = fired w /\ cancelled (snd (drive g w)) = cancelled w /\
     match fst (drive g w) with Suspended d _ => ~ In d (fired w) | Finished _ => True end /\
-    (forall x, In x (consumed (snd (drive g w))) -> In x (consumed w) \/ In x (fired w)) /\
-    (stale w = true -> stale (snd (drive g w)) = true).
+    (forall x, In x (consumed (snd (drive g w))) -> In x (consumed w) \/ In x (fired w) \/ settling w = Some x) /\
+    (stale w = true -> stale (snd (drive g w)) = true) /\
+    (settling (snd (drive g w)) = settling w \/ settling (snd (drive g w)) = None).
   Proof.
-    induction g as [v|e|d k IH|v k IH|t g IHg|g IHg k IH|lvl g IHg]; intros w; cbn [Model.drive].
+    induction g as [v|e|d k IH|v k IH|t g IHg|g IHg k IH|g IHg k IH|lvl g IHg]; intros w; cbn [Model.drive].
     - cbn. repeat split; auto.
     - cbn. repeat split; auto.
     - destruct (mem d (fired w)) eqn:E.
-      + destruct (after_read_world d w) as (A1 & A2 & _ & A4 & A5).
-        destruct (IH (current assign canc w d) (after_read coro d w)) as (B1 & B2 & B3 & B4 & B5).
-        rewrite A1, A2 in *. repeat split; auto.
-        * intros x Hx. destruct (B4 x Hx) as [H|H]; [|auto]. destruct (A4 x H) as [H'| ->]; [auto|].
-          right. apply mem_In. exact E.
+      + destruct (after_read_world d w) as (A1 & A2 & _ & A4 & A5 & A6).
+        destruct (IH (current assign canc w d) (after_read coro d w)) as (B1 & B2 & B3 & B4 & B5 & B6).
+        rewrite A1, A2, A6 in *. repeat split; auto.
+        intros x Hx. destruct (B4 x Hx) as [H|[H|H]]; auto. destruct (A4 x H) as [H'| ->]; [auto|].
+        right. left. apply mem_In. exact E.
       + cbn. apply mem_false in E. repeat split; auto.
     - apply IH.
     - apply (IHg (say t w)).
-    - destruct (IHg w) as (A1 & A2 & A3 & A4 & A5). destruct (Model.drive assign canc coro g w) as [st w1].
+    - destruct (IHg w) as (A1 & A2 & A3 & A4 & A5 & A6). destruct (Model.drive assign canc coro g w) as [st w1].
       cbn [fst snd] in *. destruct st as [r|d k'].
-      + destruct (IH r w1) as (B1 & B2 & B3 & B4 & B5). rewrite B1, B2, A1, A2. repeat split; auto.
+      + destruct (IH r w1) as (B1 & B2 & B3 & B4 & B5 & B6). rewrite B1, B2, A1, A2. repeat split; auto.
         * destruct (fst (Model.drive assign canc coro (k r) w1)); [exact I|]. rewrite <- A1. exact B3.
-        * intros x Hx. destruct (B4 x Hx) as [H|H]; [apply A4, H | right; rewrite <- A1; exact H].
+        * intros x Hx. destruct (B4 x Hx) as [H|[H|H]]; [apply A4, H | right; left; rewrite <- A1; exact H |].
+          destruct A6 as [A6|A6]; rewrite A6 in H; [auto | discriminate].
+        * destruct B6 as [B6|B6]; [|auto]. rewrite B6. exact A6.
+      + cbn. repeat split; auto.
+    - destruct (IHg w) as (A1 & A2 & A3 & A4 & A5 & A6). destruct (Model.drive assign canc coro g w) as [st w1].
+      cbn [fst snd] in *. destruct st as [r|d k'].
+      + destruct (boundary_world w1) as (C1 & C2 & _ & C4 & C5 & C6).
+        destruct (IH r (boundary w1)) as (B1 & B2 & B3 & B4 & B5 & B6). rewrite B1, B2, C1, C2, A1, A2. repeat split; auto.
+        * destruct (fst (Model.drive assign canc coro (k r) (boundary w1))); [exact I|]. rewrite <- A1, <- C1. exact B3.
+        * intros x Hx. destruct (B4 x Hx) as [H|[H|H]].
+          -- destruct (C4 x H) as [H'|H']; [apply A4, H'|]. destruct A6 as [A6|A6]; rewrite A6 in H'; [auto | discriminate].
+          -- right. left. rewrite <- A1, <- C1. exact H.
+          -- destruct C6 as [C6|C6]; rewrite C6 in H; [|discriminate].
+             destruct A6 as [A6|A6]; rewrite A6 in H; [auto | discriminate].
+        * intros H. apply B5. rewrite C5. apply A5, H.
+        * destruct B6 as [B6|B6]; [|auto]. rewrite B6. destruct C6 as [C6|C6]; [|auto]. rewrite C6. exact A6.
       + cbn. repeat split; auto.
     - apply (IHg (say (CancelNow lvl) w)).
   Qed.
 
   Lemma drive_WF g w :
     (forall d, In d (cancelled w) -> In d (fired w)) -> (forall d, In d (consumed w) -> In d (fired w)) ->
-    WF (drive g w).
+    settling w = None -> WF (drive g w).
   Proof.
-    intros H1 H2. destruct (drive_world g w) as (E1 & E2 & E3 & E4 & _). unfold WF. rewrite E1, E2.
-    repeat split; auto. intros d Hd. destruct (E4 d Hd); auto.
+    intros H1 H2 H3. destruct (drive_world g w) as (E1 & E2 & E3 & E4 & _ & E6). unfold WF. rewrite E1, E2.
+    repeat split; auto.
+    - intros d Hd. destruct (E4 d Hd) as [H|[H|H]]; auto. congruence.
+    - destruct E6 as [E6|E6]; congruence.
   Qed.
 
-  Lemma resume_world d k w1 :
-    fired (snd (resume assign canc coro d k w1)) = fired w1 /\
-    cancelled (snd (resume assign canc coro d k w1)) = cancelled w1 /\
-    match fst (resume assign canc coro d k w1) with Suspended x _ => ~ In x (fired w1) | Finished _ => True end /\
-    (forall x, In x (consumed (snd (resume assign canc coro d k w1))) -> In x (consumed w1) \/ In x (fired w1) \/ x = d).
+  Lemma resume_world via d k w1 : In d (fired w1) -> settling w1 = None ->
+    fired (snd (resume assign canc coro via d k w1)) = fired w1 /\
+    cancelled (snd (resume assign canc coro via d k w1)) = cancelled w1 /\
+    match fst (resume assign canc coro via d k w1) with Suspended x _ => ~ In x (fired w1) | Finished _ => True end /\
+    (forall x, In x (consumed (snd (resume assign canc coro via d k w1))) -> In x (consumed w1) \/ In x (fired w1)) /\
+    settling (snd (resume assign canc coro via d k w1)) = None.
   Proof.
-    pose proof (drive_world (k (current assign canc w1 d)) w1) as (E1 & E2 & E3 & E4 & _).
-    pose proof (drive_world (k (current assign canc w1 d)) (consume d w1)) as (F1 & F2 & F3 & F4 & _).
+    intros Hd Hs.
+    pose proof (drive_world (k (current assign canc w1 d)) (mark_settling via d w1)) as (E1 & E2 & E3 & E4 & _ & _).
+    pose proof (drive_world (k (current assign canc w1 d)) (consume d w1)) as (F1 & F2 & F3 & F4 & _ & F6).
     unfold resume, settle. destruct coro.
-    - cbn [fst snd consume fired cancelled consumed].
-      split; [exact E1|]. split; [exact E2|]. split; [exact E3|].
-      intros x [<-|Hx]; [auto|]. destruct (E4 x Hx); auto.
-    - cbn [consume fired cancelled consumed] in *.
-      split; [exact F1|]. split; [exact F2|]. split; [exact F3|].
-      intros x Hx. destruct (F4 x Hx) as [[<-|H]|H]; auto.
+    - cbn [fst snd consume unsettle mark_settling fired cancelled consumed settling] in *.
+      split; [exact E1|]. split; [exact E2|]. split; [exact E3|]. split; [|reflexivity].
+      intros x [<-|Hx]; [auto|]. destruct (E4 x Hx) as [H|[H|H]]; auto.
+      destruct via; [injection H as <-; auto | congruence].
+    - cbn [consume fired cancelled consumed settling] in *.
+      split; [exact F1|]. split; [exact F2|]. split; [exact F3|]. split.
+      + intros x Hx. destruct (F4 x Hx) as [[<-|H]|[H|H]]; auto. congruence.
+      + destruct F6 as [F6|F6]; congruence.
   Qed.
 
-  Lemma resume_WF d k w1 :
-    (forall x, In x (cancelled w1) -> In x (fired w1)) -> (forall x, In x (consumed w1) -> In x (fired w1)) ->
-    In d (fired w1) -> WF (resume assign canc coro d k w1).
+  Lemma resume_fc via d k w1 :
+    fired (snd (resume assign canc coro via d k w1)) = fired w1 /\
+    cancelled (snd (resume assign canc coro via d k w1)) = cancelled w1.
   Proof.
-    intros H1 H2 Hd. destruct (resume_world d k w1) as (E1 & E2 & E3 & E4). unfold WF. rewrite E1, E2.
-    repeat split; auto. intros x Hx. destruct (E4 x Hx) as [H|[H| ->]]; auto.
+    pose proof (drive_world (k (current assign canc w1 d)) (mark_settling via d w1)) as (E1 & E2 & _).
+    pose proof (drive_world (k (current assign canc w1 d)) (consume d w1)) as (F1 & F2 & _).
+    unfold resume, settle. destruct coro; cbn [fst snd consume unsettle mark_settling fired cancelled] in *; auto.
+  Qed.
+
+  Lemma resume_WF via d k w1 :
+    (forall x, In x (cancelled w1) -> In x (fired w1)) -> (forall x, In x (consumed w1) -> In x (fired w1)) ->
+    In d (fired w1) -> settling w1 = None -> WF (resume assign canc coro via d k w1).
+  Proof.
+    intros H1 H2 Hd Hs. destruct (resume_world via d k w1 Hd Hs) as (E1 & E2 & E3 & E4 & E5). unfold WF. rewrite E1, E2.
+    repeat split; auto. intros x Hx. destruct (E4 x Hx); auto.
   Qed.
 
   Lemma step_WF p o : WF p -> WF (step p o).
   Proof.
-    destruct p as [st w]. intros (H1 & H2 & H3). cbn [fst snd] in *. destruct o as [d| |d]; cbn [Model.step].
+    destruct p as [st w]. intros (H1 & H2 & H3 & H4). cbn [fst snd] in *. destruct o as [d| |d]; cbn [Model.step].
     - unfold Model.fire. destruct (mem d (fired w)) eqn:Ef; [repeat split; assumption|].
       destruct st as [r|d' k].
       + repeat split; cbn; auto.
@@ -117,7 +159,7 @@ Section Common.
   Qed.
 
   Lemma start_WF pre hold0 g : WF (start assign canc coro pre hold0 g).
-  Proof. unfold start. apply drive_WF; intros d []. Qed.
+  Proof. unfold start. apply drive_WF; [intros d [] | intros d [] | reflexivity]. Qed.
 
   Lemma run_WF pre hold0 g sched : WF (run assign canc coro pre hold0 g sched).
   Proof.
@@ -134,11 +176,11 @@ Section Common.
       + destruct Hx as [Hx|[= ->]]; [exact Hx | apply mem_In; exact E].
       + assert (H1 : In x (d :: fired w)) by (destruct Hx as [Hx|[= ->]]; [right; exact Hx | left; reflexivity]).
         destruct st as [r|d' k]; [exact H1|]. destruct (Nat.eqb d d'); [|exact H1].
-        match goal with |- context [resume assign canc coro ?a ?b ?c] => destruct (resume_world a b c) as (E1 & _) end.
+        match goal with |- context [resume assign canc coro ?v ?a ?b ?c] => destruct (resume_fc v a b c) as (E1 & _) end.
         rewrite E1. exact H1.
     - destruct Hx as [Hx|Hx]; [|discriminate]. unfold Model.cancel. destruct st as [r|d k]; [exact Hx|].
       destruct (mem d (held w)); [exact Hx|].
-      match goal with |- context [resume assign canc coro ?a ?b ?c] => destruct (resume_world a b c) as (E1 & _) end.
+      match goal with |- context [resume assign canc coro ?v ?a ?b ?c] => destruct (resume_fc v a b c) as (E1 & _) end.
       rewrite E1. right. exact Hx.
     - destruct Hx as [Hx|Hx]; [|discriminate]. unfold Model.hold. destruct (mem d (fired w)); exact Hx.
   Qed.
@@ -148,7 +190,7 @@ Section Common.
   Proof.
     unfold run.
     assert (H : forall x, In x pre -> In x (fired (snd (start assign canc coro pre hold0 g)))).
-    { intros x Hx. unfold start. destruct (drive_world g (mkw pre [] [] [] hold0 false)) as (E1 & _). rewrite E1. exact Hx. }
+    { intros x Hx. unfold start. destruct (drive_world g (mkw pre [] [] [] hold0 None false)) as (E1 & _). rewrite E1. exact Hx. }
     revert H. generalize (start assign canc coro pre hold0 g) as p. revert pre.
     induction sched as [|o r IH]; intros pre p Hp x Hx.
     - destruct Hx as [Hx|[]]. apply Hp, Hx.
@@ -173,10 +215,10 @@ Section Common.
   Lemma cancel_exactly d k w : mem d (held w) = false ->
     cancelled (snd (cancel assign canc coro (Suspended d k, w))) = d :: cancelled w /\
     cancel assign canc coro (Suspended d k, w) =
-      resume assign canc coro d k (mkw (d :: fired w) (d :: cancelled w) (consumed w) (Cancelled d :: seen w) (held w) (stale w)).
+      resume assign canc coro true d k (mkw (d :: fired w) (d :: cancelled w) (consumed w) (Cancelled d :: seen w) (held w) (settling w) (stale w)).
   Proof.
     intros Hh. unfold Model.cancel. rewrite Hh.
-    match goal with |- context [resume assign canc coro ?a ?b ?c] => destruct (resume_world a b c) as (_ & E2 & _) end.
+    match goal with |- context [resume assign canc coro ?v ?a ?b ?c] => destruct (resume_fc v a b c) as (_ & E2) end.
     split; [rewrite E2; reflexivity | reflexivity].
   Qed.
 
@@ -186,16 +228,16 @@ Section Common.
     unfold run.
     assert (H : WF (start assign canc coro pre hold0 g) /\ NoDup (cancelled (snd (start assign canc coro pre hold0 g)))).
     { split; [apply start_WF|]. unfold start.
-      destruct (drive_world g (mkw pre [] [] [] hold0 false)) as (_ & E2 & _). rewrite E2. constructor. }
+      destruct (drive_world g (mkw pre [] [] [] hold0 None false)) as (_ & E2 & _). rewrite E2. constructor. }
     revert H. generalize (start assign canc coro pre hold0 g) as p. induction sched as [|o r IH]; intros p [HW Hn]; [exact Hn|].
     cbn [fold_left]. apply IH. split; [apply step_WF, HW|].
     destruct p as [st w]. destruct HW as (W1 & W2 & W3). cbn [fst snd] in *. destruct o as [d| |d]; cbn [Model.step].
     - unfold Model.fire. destruct (mem d (fired w)); [exact Hn|]. destruct st as [r0|d' k]; [exact Hn|].
       destruct (Nat.eqb d d'); [|exact Hn].
-      match goal with |- context [resume assign canc coro ?a ?b ?c] => destruct (resume_world a b c) as (_ & E2 & _) end.
+      match goal with |- context [resume assign canc coro ?v ?a ?b ?c] => destruct (resume_fc v a b c) as (_ & E2) end.
       rewrite E2. exact Hn.
     - unfold Model.cancel. destruct st as [r0|d k]; [exact Hn|]. destruct (mem d (held w)); [exact Hn|].
-      match goal with |- context [resume assign canc coro ?a ?b ?c] => destruct (resume_world a b c) as (_ & E2 & _) end.
+      match goal with |- context [resume assign canc coro ?v ?a ?b ?c] => destruct (resume_fc v a b c) as (_ & E2) end.
       rewrite E2. cbn. constructor; [|exact Hn]. intros Hin. apply W3, W1, Hin.
     - unfold Model.hold. destruct (mem d (fired w)); exact Hn.
   Qed.
@@ -222,7 +264,7 @@ Section Common.
   (** backwards through one step, for the sets the agreement talks about *)
   Lemma agrees_back_fire d w :
     ~ In d (fired w) -> (forall x, In x (cancelled w) -> In x (fired w)) ->
-    agrees (mkw (d :: fired w) (cancelled w) (consumed w) (seen w) (held w) (stale w)) -> agrees w /\ ~ In d c.
+    agrees (mkw (d :: fired w) (cancelled w) (consumed w) (seen w) (held w) (settling w) (stale w)) -> agrees w /\ ~ In d c.
   Proof.
     intros Ef W1 (A1 & A2). cbn in *. split; [split; [exact A1|]|].
     - intros x Hx Hf. apply A2; [exact Hx | right; exact Hf].
@@ -231,7 +273,7 @@ Section Common.
 
   Lemma agrees_back_cancel d w x0 :
     ~ In d (fired w) ->
-    agrees (mkw (d :: fired w) (d :: cancelled w) (consumed w) x0 (held w) (stale w)) -> agrees w /\ In d c.
+    agrees (mkw (d :: fired w) (d :: cancelled w) (consumed w) x0 (held w) (settling w) (stale w)) -> agrees w /\ In d c.
   Proof.
     intros Ef (A1 & A2). cbn in *. split; [split|].
     - intros x Hx. apply A1. right. exact Hx.
@@ -257,33 +299,42 @@ Section Generator.
     | Suspended d k => sync out (GYieldD d k) (consumed (snd p)) (own (seen (snd p)))
     end.
 
-  Lemma drive_sync g : forall w, agrees w -> sync_of (drive g w) = sync out g (consumed w) (own (seen w)).
+  Lemma drive_sync g : forall w, agrees w -> settling w = None ->
+    sync_of (drive g w) = sync out g (consumed w) (own (seen w)).
   Proof.
-    induction g as [v|e|d k IH|v k IH|t g IHg|g IHg k IH|lvl g IHg]; intros w Ha; cbn [Model.drive Model.sync].
+    induction g as [v|e|d k IH|v k IH|t g IHg|g IHg k IH|g IHg k IH|lvl g IHg]; intros w Ha Hn; cbn [Model.drive Model.sync].
     - reflexivity.
     - reflexivity.
     - destruct (mem d (fired w)) eqn:Ef.
-      + unfold after_read. rewrite IH by exact Ha. apply mem_In in Ef. unfold current.
+      + unfold after_read. rewrite IH by assumption. apply mem_In in Ef. unfold current.
         rewrite (eff_agrees assign canc c w d Ha Ef). reflexivity.
       + reflexivity.
-    - apply IH. exact Ha.
-    - rewrite IHg by exact Ha. reflexivity.
-    - specialize (IHg w Ha). destruct (drive_world assign canc false g w) as (A1 & A2 & _).
+    - apply IH; assumption.
+    - rewrite IHg by assumption. reflexivity.
+    - specialize (IHg w Ha Hn). destruct (drive_world assign canc false g w) as (A1 & A2 & _ & _ & _ & A6).
       destruct (Model.drive assign canc false g w) as [st w1]. cbn [fst snd] in *.
       assert (Ha1 : agrees w1) by (eapply agrees_same; eassumption).
+      assert (Hn1 : settling w1 = None) by (destruct A6; congruence).
       rewrite <- IHg. destruct st as [r|d k'].
-      + unfold sync_of at 2. cbn [fst snd]. apply IH. exact Ha1.
+      + unfold sync_of at 2. cbn [fst snd]. apply IH; assumption.
       + unfold sync_of. cbn [fst snd Model.sync]. reflexivity.
-    - rewrite IHg by exact Ha. reflexivity.
+    - specialize (IHg w Ha Hn). destruct (drive_world assign canc false g w) as (A1 & A2 & _ & _ & _ & A6).
+      destruct (Model.drive assign canc false g w) as [st w1]. cbn [fst snd] in *.
+      assert (Ha1 : agrees w1) by (eapply agrees_same; eassumption).
+      assert (Hn1 : settling w1 = None) by (destruct A6; congruence).
+      rewrite <- IHg. destruct st as [r|d k'].
+      + unfold boundary. rewrite Hn1. unfold sync_of at 2. cbn [fst snd]. apply IH; assumption.
+      + unfold sync_of. cbn [fst snd Model.sync]. reflexivity.
+    - rewrite IHg by assumption. reflexivity.
   Qed.
 
   (** one step, read backwards: if the world after the step agrees with [c], so did the world before, and the
       synchronous continuation is the same *)
   Lemma step_back p o : WF p -> agrees (snd (step p o)) -> agrees (snd p) /\ sync_of (step p o) = sync_of p.
   Proof.
-    destruct p as [st w]. intros (W1 & _ & W3). cbn [fst snd] in *. destruct o as [d| |d]; cbn [Model.step].
+    destruct p as [st w]. intros (W1 & _ & W3 & W4). cbn [fst snd] in *. destruct o as [d| |d]; cbn [Model.step].
     - unfold Model.fire. destruct (mem d (fired w)) eqn:Ef; [auto|]. apply mem_false in Ef.
-      set (w1 := mkw (d :: fired w) (cancelled w) (consumed w) (seen w) (held w) (stale w)).
+      set (w1 := mkw (d :: fired w) (cancelled w) (consumed w) (seen w) (held w) (settling w) (stale w)).
       destruct st as [r|d' k].
       + cbn [snd]. intros Ha. destruct (agrees_back_fire c d w Ef W1 Ha) as [H _]. split; [exact H | reflexivity].
       + destruct (Nat.eqb_spec d d') as [->|Hne].
@@ -292,7 +343,7 @@ Section Generator.
           intros (A1 & A2). rewrite E1, E2 in *.
           assert (Ha1 : agrees w1) by (split; assumption).
           destruct (agrees_back_fire c d' w Ef W1 Ha1) as [Ha Hnc].
-          split; [exact Ha|]. rewrite drive_sync by exact Ha1.
+          split; [exact Ha|]. rewrite drive_sync by (first [exact Ha1 | exact W4]).
           unfold sync_of. cbn [fst snd Model.sync consume consumed seen w1].
           unfold current, eff. cbn [consumed cancelled w1].
           assert (Hn1 : mem d' (cancelled w) = false) by (apply mem_false; intros H; apply Ef, W1, H).
@@ -300,14 +351,14 @@ Section Generator.
           rewrite Hn1, Hn2. reflexivity.
         * cbn [snd]. intros Ha. destruct (agrees_back_fire c d w Ef W1 Ha) as [H _]. split; [exact H | reflexivity].
     - unfold Model.cancel. destruct st as [r|d k]; [auto|]. destruct (mem d (held w)); [auto|].
-      set (w1 := mkw (d :: fired w) (d :: cancelled w) (consumed w) (Cancelled d :: seen w) (held w) (stale w)).
+      set (w1 := mkw (d :: fired w) (d :: cancelled w) (consumed w) (Cancelled d :: seen w) (held w) (settling w) (stale w)).
       unfold resume.
       destruct (drive_world assign canc false (k (current assign canc w1 d)) (consume d w1)) as (E1 & E2 & _).
       intros (A1 & A2). rewrite E1, E2 in *. cbn [fired cancelled consume w1] in *.
       assert (Ha1 : agrees w1) by (split; assumption).
       destruct (agrees_back_cancel c d w _ W3 Ha1) as [Ha Hc].
       split; [exact Ha|].
-      rewrite drive_sync by exact Ha1. unfold sync_of. cbn [fst snd Model.sync consume consumed seen w1].
+      rewrite drive_sync by (first [exact Ha1 | exact W4]). unfold sync_of. cbn [fst snd Model.sync consume consumed seen w1].
       rewrite own_cons. cbn [push]. unfold current, eff. cbn [consumed cancelled w1].
       assert (H1 : mem d (d :: cancelled w) = true) by (apply mem_In; left; reflexivity).
       assert (H2 : mem d c = true) by (apply mem_In; exact Hc).
@@ -328,8 +379,8 @@ Section Generator.
   Proof.
     intros Ha. unfold run in *.
     destruct (run_back sched _ (start_WF assign canc false pre hold0 g) Ha) as [Ha0 Hs]. rewrite Hs. unfold start in *.
-    destruct (drive_world assign canc false g (mkw pre [] [] [] hold0 false)) as (E1 & E2 & _).
-    rewrite drive_sync; [reflexivity|]. unfold Proofs.agrees in *. rewrite E1, E2 in Ha0. exact Ha0.
+    destruct (drive_world assign canc false g (mkw pre [] [] [] hold0 None false)) as (E1 & E2 & _).
+    rewrite drive_sync; [reflexivity | | reflexivity]. unfold Proofs.agrees in *. rewrite E1, E2 in Ha0. exact Ha0.
   Qed.
 End Generator.
 
@@ -353,12 +404,12 @@ Section Coroutine.
   Lemma drive_sync_nc g : forall w, agrees w -> stale (snd (drive g w)) = false ->
     sync_of_nc (drive g w) = sync_nc out g (own (seen w)).
   Proof.
-    induction g as [v|e|d k IH|v k IH|t g IHg|g IHg k IH|lvl g IHg]; intros w Ha Hs; cbn [Model.drive Model.sync_nc] in *.
+    induction g as [v|e|d k IH|v k IH|t g IHg|g IHg k IH|g IHg k IH|lvl g IHg]; intros w Ha Hs; cbn [Model.drive Model.sync_nc] in *.
     - reflexivity.
     - reflexivity.
     - destruct (mem d (fired w)) eqn:Ef; [|reflexivity].
       unfold after_read in *. assert (Ha' : agrees (note_stale d w)) by exact Ha.
-      destruct (drive_world assign canc true (k (current assign canc w d)) (note_stale d w)) as (_ & _ & _ & _ & M).
+      destruct (drive_world assign canc true (k (current assign canc w d)) (note_stale d w)) as (_ & _ & _ & _ & M & _).
       assert (Hm : mem d (consumed w) = false).
       { destruct (mem d (consumed w)) eqn:E; [|reflexivity]. rewrite M in Hs; [discriminate|]. cbn. rewrite E. apply orb_true_r. }
       rewrite IH by assumption. apply mem_In in Ef. unfold current. rewrite Hm.
@@ -369,55 +420,69 @@ Section Coroutine.
       destruct (Model.drive assign canc true g w) as [st w1] eqn:Eg. cbn [fst snd] in *.
       assert (Ha1 : agrees w1) by (eapply agrees_same; eassumption).
       destruct st as [r|d k'].
-      + destruct (drive_world assign canc true (k r) w1) as (_ & _ & _ & _ & M).
+      + destruct (drive_world assign canc true (k r) w1) as (_ & _ & _ & _ & M & _).
         assert (Hs1 : stale w1 = false) by (destruct (stale w1) eqn:E; [rewrite M in Hs; [discriminate | reflexivity] | reflexivity]).
         specialize (IHg w Ha). rewrite Eg in IHg. cbn [snd] in IHg. specialize (IHg Hs1).
         rewrite <- IHg. unfold sync_of_nc at 2. cbn [fst snd]. apply IH; assumption.
       + cbn [snd] in Hs. specialize (IHg w Ha). rewrite Eg in IHg. cbn [snd] in IHg. specialize (IHg Hs).
         rewrite <- IHg. unfold sync_of_nc. cbn [fst snd Model.sync_nc]. reflexivity.
+    - destruct (drive_world assign canc true g w) as (A1 & A2 & _).
+      destruct (Model.drive assign canc true g w) as [st w1] eqn:Eg. cbn [fst snd] in *.
+      assert (Ha1 : agrees w1) by (eapply agrees_same; eassumption).
+      destruct st as [r|d k'].
+      + destruct (boundary_world w1) as (C1 & C2 & C3 & _ & C5 & _).
+        assert (Ha2 : agrees (boundary w1)) by (eapply agrees_same; eassumption).
+        destruct (drive_world assign canc true (k r) (boundary w1)) as (_ & _ & _ & _ & M & _).
+        assert (Hs1 : stale w1 = false).
+        { destruct (stale w1) eqn:E; [|reflexivity]. rewrite M in Hs; [discriminate | exact C5]. }
+        specialize (IHg w Ha). rewrite Eg in IHg. cbn [snd] in IHg. specialize (IHg Hs1).
+        rewrite <- IHg. unfold sync_of_nc at 2. cbn [fst snd]. rewrite <- C3. apply IH; assumption.
+      + cbn [snd] in Hs. specialize (IHg w Ha). rewrite Eg in IHg. cbn [snd] in IHg. specialize (IHg Hs).
+        rewrite <- IHg. unfold sync_of_nc. cbn [fst snd Model.sync_nc]. reflexivity.
     - rewrite IHg by assumption. reflexivity.
   Qed.
 
-  Lemma stale_resume d k w1 : stale (snd (resume assign canc true d k w1)) = false ->
-    stale w1 = false /\ stale (snd (drive (k (current assign canc w1 d)) w1)) = false.
+  Lemma stale_resume via d k w1 : stale (snd (resume assign canc true via d k w1)) = false ->
+    stale w1 = false /\ stale (snd (drive (k (current assign canc w1 d)) (mark_settling via d w1))) = false.
   Proof.
-    unfold resume, settle. cbn [snd consume stale]. intros H. split; [|exact H].
-    destruct (drive_world assign canc true (k (current assign canc w1 d)) w1) as (_ & _ & _ & _ & M).
+    unfold resume, settle. cbn [snd consume unsettle stale]. intros H. split; [|exact H].
+    destruct (drive_world assign canc true (k (current assign canc w1 d)) (mark_settling via d w1)) as (_ & _ & _ & _ & M & _).
+    change (stale (mark_settling via d w1)) with (stale w1) in M.
     destruct (stale w1); [rewrite M in H; [discriminate | reflexivity] | reflexivity].
   Qed.
 
   Lemma step_back_nc p o : WF p -> agrees (snd (step p o)) -> stale (snd (step p o)) = false ->
     agrees (snd p) /\ stale (snd p) = false /\ sync_of_nc (step p o) = sync_of_nc p.
   Proof.
-    destruct p as [st w]. intros (W1 & W2 & W3). cbn [fst snd] in *. destruct o as [d| |d]; cbn [Model.step].
+    destruct p as [st w]. intros (W1 & W2 & W3 & _). cbn [fst snd] in *. destruct o as [d| |d]; cbn [Model.step].
     - unfold Model.fire. destruct (mem d (fired w)) eqn:Ef; [auto|]. apply mem_false in Ef.
-      set (w1 := mkw (d :: fired w) (cancelled w) (consumed w) (seen w) (held w) (stale w)).
+      set (w1 := mkw (d :: fired w) (cancelled w) (consumed w) (seen w) (held w) (settling w) (stale w)).
       destruct st as [r|d' k].
       + cbn [snd]. intros Ha Hs. destruct (agrees_back_fire c d w Ef W1 Ha) as [H _]. auto.
       + destruct (Nat.eqb_spec d d') as [->|Hne].
-        * intros Ha Hs. destruct (stale_resume d' k w1 Hs) as [Hs1 Hs2].
-          destruct (resume_world assign canc true d' k w1) as (E1 & E2 & _).
+        * intros Ha Hs. destruct (stale_resume false d' k w1 Hs) as [Hs1 Hs2].
+          destruct (resume_fc assign canc true false d' k w1) as (E1 & E2).
           assert (Ha1 : agrees w1) by (destruct Ha as (A1 & A2); rewrite E1, E2 in *; split; assumption).
           destruct (agrees_back_fire c d' w Ef W1 Ha1) as [Ha0 Hnc].
           split; [exact Ha0|]. split; [exact Hs1|].
-          unfold resume, settle, sync_of_nc. cbn [fst snd consume seen].
-          pose proof (drive_sync_nc (k (current assign canc w1 d')) w1 Ha1 Hs2) as Hd. unfold sync_of_nc in Hd.
-          rewrite Hd. cbn [Model.sync_nc seen w1]. unfold current, eff. cbn [consumed cancelled w1].
+          unfold resume, settle, sync_of_nc. cbn [fst snd consume unsettle seen].
+          pose proof (drive_sync_nc (k (current assign canc w1 d')) (mark_settling false d' w1) Ha1 Hs2) as Hd.
+          unfold sync_of_nc in Hd. rewrite Hd. cbn [Model.sync_nc seen mark_settling w1]. unfold current, eff. cbn [consumed cancelled w1].
           assert (Hn0 : mem d' (consumed w) = false) by (apply mem_false; intros H; apply Ef, W2, H).
           assert (Hn1 : mem d' (cancelled w) = false) by (apply mem_false; intros H; apply Ef, W1, H).
           assert (Hn2 : mem d' c = false) by (apply mem_false; exact Hnc).
           rewrite Hn0, Hn1, Hn2. reflexivity.
         * cbn [snd]. intros Ha Hs. destruct (agrees_back_fire c d w Ef W1 Ha) as [H _]. auto.
     - unfold Model.cancel. destruct st as [r|d k]; [auto|]. destruct (mem d (held w)); [auto|].
-      set (w1 := mkw (d :: fired w) (d :: cancelled w) (consumed w) (Cancelled d :: seen w) (held w) (stale w)).
-      intros Ha Hs. destruct (stale_resume d k w1 Hs) as [Hs1 Hs2].
-      destruct (resume_world assign canc true d k w1) as (E1 & E2 & _).
+      set (w1 := mkw (d :: fired w) (d :: cancelled w) (consumed w) (Cancelled d :: seen w) (held w) (settling w) (stale w)).
+      intros Ha Hs. destruct (stale_resume true d k w1 Hs) as [Hs1 Hs2].
+      destruct (resume_fc assign canc true true d k w1) as (E1 & E2).
       assert (Ha1 : agrees w1) by (destruct Ha as (A1 & A2); rewrite E1, E2 in *; split; assumption).
       destruct (agrees_back_cancel c d w _ W3 Ha1) as [Ha0 Hc].
       split; [exact Ha0|]. split; [exact Hs1|].
-      unfold resume, settle, sync_of_nc. cbn [fst snd consume seen].
-      pose proof (drive_sync_nc (k (current assign canc w1 d)) w1 Ha1 Hs2) as Hd. unfold sync_of_nc in Hd.
-      rewrite Hd. cbn [Model.sync_nc seen w1]. rewrite own_cons. cbn [push].
+      unfold resume, settle, sync_of_nc. cbn [fst snd consume unsettle seen].
+      pose proof (drive_sync_nc (k (current assign canc w1 d)) (mark_settling true d w1) Ha1 Hs2) as Hd.
+      unfold sync_of_nc in Hd. rewrite Hd. cbn [Model.sync_nc seen mark_settling w1]. rewrite own_cons. cbn [push].
       unfold current, eff. cbn [consumed cancelled w1].
       assert (Hn0 : mem d (consumed w) = false) by (apply mem_false; intros H; apply W3, W2, H).
       assert (H1 : mem d (d :: cancelled w) = true) by (apply mem_In; left; reflexivity).
@@ -442,7 +507,7 @@ Section Coroutine.
     intros Ha Hs. unfold run in *.
     destruct (run_back_nc sched _ (start_WF assign canc true pre hold0 g) Ha Hs) as (Ha0 & Hs0 & He). rewrite He.
     unfold start in *.
-    destruct (drive_world assign canc true g (mkw pre [] [] [] hold0 false)) as (E1 & E2 & _).
+    destruct (drive_world assign canc true g (mkw pre [] [] [] hold0 None false)) as (E1 & E2 & _).
     rewrite drive_sync_nc; [reflexivity | | exact Hs0]. unfold Proofs.agrees in *. rewrite E1, E2 in Ha0. exact Ha0.
   Qed.
 End Coroutine.
